@@ -379,3 +379,6 @@ func EqualDumps(a, b []KV) bool {
 	}
 	return true
 }
+
+// Seq0 is the number of journaled writes since StartJournal.
+func (d *Disk) Seq0() int { d.mu.Lock(); defer d.mu.Unlock(); return len(d.Journal) }
